@@ -1,4 +1,5 @@
 import PtVerif.Proofs.LoadersField
+import PtVerif.Proofs.ParseUnc
 import PtVerif.Model.LoaderTables
 import PtVerif.Generated.MassTables
 import PtVerif.Generated.Density
@@ -123,8 +124,47 @@ theorem isotope_density_unknown {α : Type} [Mul α] [Div α] [OfNat α 0] [BEq 
 theorem derived_unknown {α : Type} (bad : α → α → Bool) (f : α → α → α) (m : Option (Option α)) :
     elDerived bad f (some none) m = some none := rfl
 
-/-! the three notations, read as documented (concrete instances; the general round trips are
-    in part 4) -/
+/-! ### the three notations, read as documented – for digit strings of any length -/
+
+/-- **`value(unc)`**: `ip.fp(u)` (and `ip.fp(u)#`, …) is the value `ip.fp` with the uncertainty
+    `u` in units of the last digit of the value: `23.0035(12)` is `23.0035 ± 0.0012` -/
+theorem parseUncertainty_value_unc (ip fp u tail : Str) (hip : Digits ip) (hfp : Digits fp) (hu : Digits u)
+    (hine : ip ≠ []) (hlen : u.length ≤ fp.length) :
+    parseUncertainty (ip ++ '.' :: fp ++ '(' :: u ++ ')' :: tail)
+      = some (.valUnc ⟨(natOf (ip ++ fp) : Int), fp.length⟩ ⟨(natOf u : Int), fp.length⟩) :=
+  parseUncertainty_valunc ip fp u tail hip hfp hu hine hlen
+
+/-- **`[nominal]`** has uncertainty zero -/
+theorem parseUncertainty_nominal (ip : Str) (hip : Digits ip) (hne : ip ≠ []) :
+    parseUncertainty ('[' :: (ip ++ [']'])) = some (.nominal ⟨(natOf ip : Int), 0⟩) :=
+  parseUncertainty_nominal_int ip hip hne
+
+theorem parseUncertainty_nominal_decimal (ip fp : Str) (hip : Digits ip) (hfp : Digits fp)
+    (hne : ip ≠ [] ∨ fp ≠ []) :
+    parseUncertainty ('[' :: ((ip ++ '.' :: fp) ++ [']']))
+      = some (.nominal ⟨(natOf (ip ++ fp) : Int), fp.length⟩) := PtLoad.parseUncertainty_nominal ip fp hip hfp hne
+
+/-- **`[low,high]`**: both ends are read exactly … -/
+theorem parseUncertainty_range (ip1 fp1 ip2 fp2 : Str) (h1 : Digits ip1) (h2 : Digits fp1)
+    (h3 : Digits ip2) (h4 : Digits fp2) (hne1 : ip1 ≠ [] ∨ fp1 ≠ []) (hne2 : ip2 ≠ [] ∨ fp2 ≠ []) :
+    parseUncertainty ('[' :: (((ip1 ++ '.' :: fp1) ++ ',' :: (ip2 ++ '.' :: fp2)) ++ [']']))
+      = some (.range ⟨(natOf (ip1 ++ fp1) : Int), fp1.length⟩ ⟨(natOf (ip2 ++ fp2) : Int), fp2.length⟩) :=
+  PtLoad.parseUncertainty_range ip1 fp1 ip2 fp2 h1 h2 h3 h4 hne1 hne2
+
+/-- … and a range stands for its mean with the 1-sigma width of a rectangular distribution -/
+theorem range_is_mean_and_width {α : Type} [Field α] [Transc α] (lo hi : Dec) :
+    (Unc.range lo hi).eval (α := α)
+      = some ((hi.toNum + lo.toNum) / 2, (hi.toNum - lo.toNum) / Transc.sqrt 12) := by
+  simp [Unc.eval, Unc.val, Unc.unc]
+
+/-- a bare value has uncertainty zero, a blank field is `(None, None)` -/
+theorem parseUncertainty_bare (ip fp : Str) (hip : Digits ip) (hfp : Digits fp) (hine : ip ≠ []) :
+    parseUncertainty (ip ++ '.' :: fp) = some (.plain ⟨(natOf (ip ++ fp) : Int), fp.length⟩) :=
+  parseUncertainty_plain ip fp hip hfp hine
+
+theorem parseUncertainty_blank : parseUncertainty [] = some .missing := rfl
+
+/-! concrete instances -/
 example : parseUncertainty "23.0035(12)".toList = some (.valUnc ⟨230035, 4⟩ ⟨12, 4⟩) := by decide +kernel
 example : parseUncertainty "5.03987(215)#".toList = some (.valUnc ⟨503987, 5⟩ ⟨215, 5⟩) := by decide +kernel
 example : parseUncertainty "23.0(1.0)".toList = some (.valUnc ⟨230, 1⟩ ⟨10, 1⟩) := by decide +kernel
